@@ -162,7 +162,7 @@ def run(ctx):
         mon = ReadyMonitor(ctx, fl)
         mon.install(probe)
         for i, rnd in ctx.cases("engines", nengines):
-            spec = E.gen_engine(rnd, activations=("General",), flags=False, locks=False, d=3, resolutions=[5, 10, 37], max_depth=2, allow_output_antecedent=True, share_defuzzifier=True, free_weights=True)
+            spec = E.gen_engine(rnd, activations=("General",), flags=False, locks=False, d=3, resolutions=[5, 10, 37], max_depth=2, allow_output_antecedent=True, share_defuzzifier=True, free_weights=True, routes=True)
             items = removable(spec)
             subsets = [c for r in range(len(items) + 1) for c in itertools.combinations(items, r)]
             if len(subsets) > cap:
